@@ -50,8 +50,10 @@ if "--design" in sys.argv:
         s = s.replace("MATRIX-PLACEHOLDER", block)
     else:
         s = re.sub(r"<!-- MATRIX-BEGIN -->.*?<!-- MATRIX-END -->", lambda _: block, s, flags=re.S)
-    bblock = "<!-- BENIGN-BEGIN -->\nLast complete run of all of them (`tools/runbenign.sh`, quick tier): %d of %d leave the check of their property quiet%s.\n<!-- BENIGN-END -->" % (
-        quiet, len(ben), "" if quiet == len(ben) else "; alarms: " + ", ".join(sorted(k for k, v in ben.items() if v != "0")))
+    nben = len(glob.glob(os.path.join(V, "benign", "C*-*")))
+    reach = "all %d" % nben if len(ben) == nben else "%d of the %d (the others were last run before round 7, all quiet then)" % (len(ben), nben)
+    bblock = "<!-- BENIGN-BEGIN -->\nLast run (`tools/runbenign.sh`, quick tier, after the strengthenings of rounds 7 and 8, %s): %d of %d leave the check of their property quiet%s.\n<!-- BENIGN-END -->" % (
+        reach, quiet, len(ben), "" if quiet == len(ben) else "; alarms: " + ", ".join(sorted(k for k, v in ben.items() if v != "0")))
     if "BENIGN-PLACEHOLDER" in s:
         s = s.replace("BENIGN-PLACEHOLDER", bblock)
     else:
